@@ -332,6 +332,10 @@ def d5_all_matches(ctx):
         b = ctx.facts.body(f)
         ctx.fn(b)
         bodies = [b] + [ctx.facts.bodies[y] for (y, k) in ctx.cg.edges.get(b.path, ()) if k == 'direct' and y.startswith('tokinizer::regex_tokinizer::') and y in ctx.facts.bodies]
+        # closures of these bodies (an iterator chain `flat_map(|re| re.captures_iter(line))` does the scan in a closure)
+        for _ in range(3):
+            have = {x.path for x in bodies}
+            bodies += [c for c in ctx.facts.bodies.values() if c.kind == 'closure' and c.rec.get('parent') in have and c.path not in have]
         scans = []
         for bb in bodies:
             scans += [(bb, t) for _, t in bb.calls(r'^regex::(regex::string::)?Regex::(captures_iter|find_iter|captures|find|captures_at|find_at|shortest_match|is_match)$')]
